@@ -259,6 +259,13 @@ class Normaliser:
                 return base.fields[e.attr]  # type: ignore[attr-defined]
             return Rat(p_atom(f"{base}.{e.attr}"))
         if isinstance(e, ast.Subscript):
+            # divmod(a, b)[1] is a % b (also behind `_, r = divmod(a, b)`), divmod(a, b)[0] is a // b
+            v_ = e.value
+            if isinstance(v_, ast.Name) and v_.id in self.env and v_.id not in self._active and isinstance(self.env[v_.id], ast.Call):
+                v_ = self.env[v_.id]
+            if isinstance(v_, ast.Call) and isinstance(v_.func, ast.Name) and v_.func.id == "divmod" and len(v_.args) == 2 and not v_.keywords \
+                    and isinstance(e.slice, ast.Constant) and e.slice.value in (0, 1):
+                return self.rat(ast.BinOp(left=v_.args[0], op=ast.Mod() if e.slice.value == 1 else ast.FloorDiv(), right=v_.args[1]))
             base = self.rat(e.value)
             elts = getattr(base, "elts", None)
             if elts is not None and isinstance(e.slice, ast.Constant) and isinstance(e.slice.value, int) and not isinstance(e.slice.value, bool) and -len(elts) <= e.slice.value < len(elts):
